@@ -31,6 +31,8 @@ def run_batch(ctx, bdir, A, plist, mons, name, replay=True, variant="hooks", env
         st[r.status.split(" ")[0].split("=")[0]] += 1
         if r.status != "ok":
             sig = {"alg": A.name(p["alg"]), "cause": "crash" if r.status.startswith("CRASH") else "no termination within the watchdog time"}
+            if "inj" in p or "injc" in p:
+                sig["objective"] = "returned Inf/NaN at some evaluation"
             ctx.violation(sig, "%s: %s (%d callbacks recorded)" % (A.name(p["alg"]), r.status, len(r.calls)), {"stream": "run", "spec": r.spec})
         else:
             ri = monitors.RunInfo(r, A)
